@@ -443,3 +443,144 @@ def c12_expiry(rng, sid, nscen):
             steps.append(BARRIER)
         out.append({"id": "%s-exp%d" % (sid, i), "cfg": cfg, "steps": steps})
     return out
+
+
+def _away(cands, deadlines, gap=500):
+    ok = [w for w in cands if all(abs(d - w) >= gap for d in deadlines)]
+    return ok
+
+
+def c05_sessions(rng, sid, nscen):
+    """session lifecycle matrix (timed) + sequential take-overs + storms of simultaneous CONNECTs on one client id"""
+    out = []
+    for i in range(nscen):
+        fam = rng.choice(["matrix", "matrix", "matrix", "takeover", "storm"])
+        cfgexp = rng.choice([1, 3, 7200])
+        cfg = {"mode": "overlap", "qq0": True, "sessexpiry": cfgexp}
+        steps = [connect(9, "obs", 5), connect(8, "pubr", 4)]
+        if fam == "matrix":
+            ver = rng.choice([5, 5, 4, 3])
+            clean1 = rng.random() < 0.3
+            req = rng.choice([0, 1, 3, 1000]) if ver == 5 else None
+            E = (0 if clean1 else cfgexp) if ver != 5 else min(req, cfgexp)
+            kw = {"expiry": req} if ver == 5 else {}
+            steps.append(connect(1, "c", ver, clean=clean1, **kw))
+            steps.append(sub(1, [{"n": "s/#", "qos": 1}]))
+            steps.append(pub(8, "s/t", 1, "live"))
+            steps.append(BARRIER)
+            if rng.random() < 0.4:
+                steps.append({"op": "sleep", "ms": rng.choice([1500, 3500])})     # a connection that lasts longer than the expiry interval
+            end = rng.choice(["disconnect", "abort", "terminate", "newexp"] if ver == 5 else ["disconnect", "abort", "terminate"])
+            if end == "disconnect":
+                steps.append({"op": "disconnect", "k": 1})
+            elif end == "newexp" and E > 0:
+                ne = rng.choice([1, 3, 1000])
+                steps.append({"op": "disconnect", "k": 1, "expiry": ne})
+                E = ne
+            elif end == "terminate":
+                steps.append({"op": "terminate", "cid": "c"})
+                steps.append({"op": "sleep", "ms": 50})
+                E = 0
+            else:
+                steps.append({"op": "abort", "k": 1})
+            steps.append(api("s/t", 1, "offline"))
+            cands = [200, 1600, 2400, 3600, 4600]
+            w = rng.choice(_away(cands, [E * 1000]) or [200])
+            steps.append({"op": "sleep", "ms": w})
+            steps.append(connect(2, "c", ver, clean=False, **({"expiry": 1000} if ver == 5 else {})))
+            steps.append(BARRIER)
+            steps.append(pub(8, "s/t", 1, "after"))
+            steps.append(BARRIER)
+        elif fam == "takeover":
+            ver = rng.choice([5, 4])
+            kw = {"expiry": rng.choice([0, 1000])} if ver == 5 else {}
+            steps.append(connect(1, "c", ver, clean=rng.random() < 0.5, **kw))
+            steps.append(sub(1, [{"n": "s/#", "qos": rng.randrange(3)}]))
+            steps.append(pub(8, "s/t", 1, "t1"))
+            steps.append(BARRIER)
+            k = 1
+            for j in range(rng.randrange(1, 4)):
+                k += 1
+                steps.append(connect(k, "c", rng.choice([5, 4]), clean=rng.random() < 0.4, **({"expiry": 1000})))
+                if rng.random() < 0.6:
+                    steps.append(sub(k, [{"n": "s/#", "qos": 1}]))
+                steps.append(pub(8, "s/t", rng.randrange(3), "t%d" % (k + 1)))
+                steps.append(BARRIER)
+        else:
+            n = rng.choice([2, 3, 4, 6])
+            pre = rng.random() < 0.6
+            if pre:
+                # a stored session without an online client (the re-lock window of lockDuplicatedID)
+                steps.append(connect(1, "c", 5, clean=True, expiry=1000, nosentinel=True))
+                steps.append({"op": "abort", "k": 1})
+            steps.append({"op": "par", "branches": [[connect(10 + j, "c", rng.choice([5, 4]), clean=False, nosentinel=True, expiry=1000)] for j in range(n)]})
+            steps.append({"op": "sleep", "ms": 100})
+            steps.append({"op": "pingall"})
+        out.append({"id": "%s-ses%s%d" % (sid, fam[0], i), "cfg": cfg, "hooks": True, "steps": steps})
+    return out
+
+
+def c08_wills(rng, sid, nscen):
+    """will settings x ways a connection can end x session expiry x reconnect timing; a watcher subscribes to the will topic"""
+    out = []
+    for i in range(nscen):
+        ver = rng.choice([5, 5, 4])
+        cfg = {"mode": "overlap", "qq0": True, "sessexpiry": 7200}
+        steps = [connect(9, "watch", 5), sub(9, [{"n": "w/#", "qos": 2, "rap": rng.random() < 0.5}])]
+        delay = rng.choice([0, 1, 2]) if ver == 5 else 0
+        exp = rng.choice([0, 1, 5]) if ver == 5 else None
+        E = exp if ver == 5 else 7200
+        clean1 = True if ver == 5 else rng.random() < 0.5
+        if ver != 5 and clean1:
+            E = 0
+        will = {"topic": "w/" + rng.choice("ab"), "qos": rng.randrange(3), "retain": rng.random() < 0.3, "tag": "W%d" % i, "delay": delay}
+        end = rng.choice(["disc0", "disc4", "abort", "malformed", "keepalive", "takeover0", "takeover1", "terminate"])
+        kw = {"expiry": exp} if ver == 5 else {}
+        if end == "keepalive":
+            kw["keepalive"] = 1
+        steps.append(connect(1, "wc", ver, clean=clean1, will=will, nosentinel=True, **kw))
+        steps.append(BARRIER)
+        suppressed = False
+        anydisc = False
+        d = min(delay, E) if E else 0
+        if end == "disc0" or (end == "disc4" and ver != 5):
+            steps.append({"op": "disconnect", "k": 1, "code": 0})
+            suppressed = True
+        elif end == "disc4":
+            steps.append({"op": "disconnect", "k": 1, "code": 4})
+        elif end == "abort":
+            steps.append({"op": "abort", "k": 1})
+        elif end == "malformed":
+            steps.append({"op": "raw", "k": 1, "hex": "f1020000" if ver != 5 else "3f0400017400"})   # reserved type/flags
+            steps.append({"op": "sleep", "ms": 150})
+            anydisc = True
+        elif end == "keepalive":
+            steps.append({"op": "sleep", "ms": 2300})
+            anydisc = True
+        elif end in ("takeover0", "takeover1"):
+            steps.append(connect(2, "wc", ver, clean=(end == "takeover1"), nosentinel=True, **({"expiry": 5} if ver == 5 else {})))
+            if end == "takeover1":
+                d = 0
+        else:
+            steps.append({"op": "terminate", "cid": "wc"})
+            steps.append({"op": "sleep", "ms": 100})
+            d = 0
+        if end.startswith("takeover"):
+            steps.append({"op": "sleep", "ms": rng.choice([300, d * 1000 + 800])})
+            steps.append(BARRIER)
+        else:
+            # reconnect before / after the delay, or not at all
+            rc = rng.choice(["none", "before", "after"])
+            if rc == "before" and d >= 1 and not suppressed:
+                steps.append({"op": "sleep", "ms": 300})
+                steps.append(connect(3, "wc", ver, clean=False, nosentinel=True, **({"expiry": 5} if ver == 5 else {})))
+                steps.append({"op": "sleep", "ms": d * 1000 + 800})
+            elif rc == "after":
+                steps.append({"op": "sleep", "ms": d * 1000 + 800})
+                steps.append(connect(3, "wc", ver, clean=False, nosentinel=True, **({"expiry": 5} if ver == 5 else {})))
+                steps.append({"op": "sleep", "ms": 200})
+            else:
+                steps.append({"op": "sleep", "ms": d * 1000 + 800})
+            steps.append(BARRIER)
+        out.append({"id": "%s-will%d" % (sid, i), "cfg": cfg, "hooks": True, "anydisc": anydisc, "steps": steps})
+    return out
